@@ -9,8 +9,10 @@
 from __future__ import annotations
 
 import copy
+import enum
 import logging
 import math
+import sys
 import threading
 from collections.abc import Sized
 from types import ModuleType
@@ -332,7 +334,7 @@ class RemoteAssertionTraceObserver(ex.RemoteExecutionObserver):
             # value could never pass, so only its type is asserted below.
             trace.add_entry(position, ass.FloatAssertion(source, value))
             return
-        if is_assertable(value):
+        if is_assertable(value) and self._are_enums_referencable(value):
             trace.add_entry(position, ass.ObjectAssertion(source, copy.deepcopy(value)))
             return
 
@@ -399,6 +401,42 @@ class RemoteAssertionTraceObserver(ex.RemoteExecutionObserver):
                     depth=depth + 1,
                     max_depth=max_depth,
                 )
+
+    @classmethod
+    def _are_enums_referencable(cls, value: Any) -> bool:
+        """Check whether all enum members in an assertable value can be named in the test.
+
+        An enum member is rendered as ``EnumClass.MEMBER``. The generated test file only
+        imports the module under test and its public names, thus the enum class must be
+        defined there (then it is referenced through the module alias) or be one of the
+        public names (e.g., ``from http import HTTPStatus`` in the module under test).
+
+        Args:
+            value: An assertable value, i.e., a primitive, an enum member, or a
+                list/tuple/set/dict of assertable values.
+
+        Returns:
+            True, if every enum member contained in the value can be referenced.
+        """
+        if isinstance(value, enum.Enum):
+            typ = type(value)
+            if "<locals>" in typ.__qualname__:
+                return False
+            if typ.__module__ == config.configuration.module_name:
+                return True
+            module = sys.modules.get(config.configuration.module_name)
+            return (
+                not typ.__name__.startswith("_")
+                and getattr(module, typ.__name__, None) is typ
+            )
+        if isinstance(value, dict):
+            return all(
+                cls._are_enums_referencable(key) and cls._are_enums_referencable(item)
+                for key, item in value.items()
+            )
+        if isinstance(value, list | tuple | set):
+            return all(cls._are_enums_referencable(item) for item in value)
+        return True
 
     @staticmethod
     def _is_type_importable(typ: type) -> bool:
